@@ -1115,7 +1115,193 @@ def eval_hidden_group(job):
         shutil.rmtree(base, ignore_errors=True)
 
 
-GROUP = {"history": eval_history_group, "crash": eval_crash_group, "overwrite": eval_overwrite_group, "damaged": eval_damaged_group,
+# ------------------------------------------------------------------------------------------------------------
+# Part F: the data root spelled in different but equivalent ways
+# ------------------------------------------------------------------------------------------------------------
+SPELLINGS = ["real", "symlink", "trailing", "dotdot", "relative", "symlink_trailing", "relative_dot", "relative_symlink",
+             "relative_dotdot_symlink"]
+SPELL_ENTRIES = ["api_files_under_spelled_root", "api_files_real", "cli"]
+
+
+def spell_root(base, how):
+    """the directory <base>/ds written in another way; <base>/lnk is a symbolic link to it, <base>/other a sibling directory and
+    <base> the current directory"""
+    ds = os.path.join(base, "ds")
+    return {"real": ds, "symlink": os.path.join(base, "lnk"), "trailing": ds + os.sep,
+            "dotdot": os.path.join(base, "other", "..", "ds"), "relative": "ds",
+            "symlink_trailing": os.path.join(base, "lnk") + os.sep, "relative_dot": os.path.join(".", "ds"),
+            "relative_symlink": "lnk", "relative_dotdot_symlink": os.path.join("other", "..", "lnk")}[how]
+
+
+def outside_files(base):
+    """every file below <base> that is neither in the data set nor the link to it"""
+    out = []
+    for r, dirs, files in os.walk(base):
+        if r == base:
+            dirs[:] = [d for d in dirs if d not in ("ds", "lnk")]
+        out += [os.path.relpath(os.path.join(r, f), base) for f in files]
+    return sorted(out)
+
+
+def eval_spelling_group(job):
+    """one (tree, selection, spelling used to create, entry point): the backup is created through one spelling of the data root
+    and then listed / restored / remodeled through the same and through other spellings"""
+    from hed.tools.remodeling.backup_manager import BackupManager
+    import hed.tools.remodeling.cli.run_remodel_backup as rb
+    tree, selection, created_as, entry = job["tree"], job["selection"], job["create"], job["entry"]
+    uses = job["uses"]
+    out = []
+    base = os.path.realpath(tempfile.mkdtemp(prefix="c18sp_"))
+    cwd0 = os.getcwd()
+    try:
+        ds = os.path.join(base, "ds")
+        os.makedirs(ds)
+        os.makedirs(os.path.join(base, "other"))
+        os.symlink(ds, os.path.join(base, "lnk"), target_is_directory=True)
+        os.chdir(base)
+        make_tree(ds, tree)
+        model = os.path.join(base, "model.json")
+        with open(model, "w") as fp:
+            json.dump(OPS, fp)
+        orig = {f: UNIVERSE[f] for f in tree}
+        backed = select(tree, selection)
+        inp0 = {"kind": "spelling", "tree": tree, "selection": selection, "create": created_as, "entry": entry,
+                "root_as_given": spell_root("<base>", created_as)}
+        fails0 = []
+        root_a = spell_root(base, created_as)
+        ok = None
+        try:
+            if entry == "cli":
+                quiet(rb.main, [root_a, "-bn", NAME, "-x", "derivatives"] + (["-e", "*", "-f", "*"] if selection == "all" else []))
+                ok = True
+            else:
+                if entry == "api_files_real":
+                    files = [os.path.join(ds, f) for f in backed]
+                else:   # full paths that lead through the spelling of the root
+                    files = [os.path.join(base if not os.path.isabs(root_a) else "", root_a, f) for f in backed]
+                ok = BackupManager(root_a).create_backup(files, NAME, verbose=False)
+        except Exception as e:
+            fails0.append(("C18.create.complete", dict(inp0, stage="create"), {"exception": type(e).__name__, "message": str(e)[:300]},
+                           "backup created"))
+        if ok is None:
+            out.append((json.dumps(inp0), True, fails0))
+            return out
+        bdir = os.path.join(ds, "derivatives", "remodel", "backups", NAME)
+        broot = os.path.join(bdir, "backup_root")
+        exp_b = {"backup_root/" + f: orig[f] for f in backed}
+        got = read_backup(ds, NAME)
+        got_b = {k: v for k, v in got.items() if k != "backup_lock.json"}
+        stray = outside_files(base)
+        if not ok or got_b != exp_b or "backup_lock.json" not in got or stray != ["model.json"] or read_state(ds) != orig:
+            fails0.append(("C18.create.complete", dict(inp0, stage="copies lie in backup_root of the data set, nothing written elsewhere"),
+                           {"returned": ok, "in_backup_dir": sorted(got), "files_outside_the_data_set": stray},
+                           {"returned": True, "in_backup_dir": sorted(exp_b) + ["backup_lock.json"], "files_outside_the_data_set": ["model.json"]}))
+        out.append((json.dumps(inp0), True, fails0))
+        backup0 = read_backup(ds, NAME)
+        can_remodel = all(f in backed for f in tree if is_events(f))
+        for ui, used_as in enumerate(uses):
+            root_b = spell_root(base, used_as)
+            inp = dict(inp0, use=used_as, root_as_used=spell_root("<base>", used_as))
+            fails = []
+            # -- listed as valid by a new manager, whatever the spelling
+            try:
+                man = BackupManager(root_b)
+                rec = man.get_backup(NAME)
+                stored = man.get_backup_files(NAME) if rec else None
+                origs = man.get_backup_files(NAME, original_paths=True) if rec else None
+                inside = stored is not None and all(os.path.realpath(p).startswith(broot + os.sep) and os.path.isfile(p) for p in stored)
+                if rec is None or sorted(rec) != sorted(backed) or not inside or \
+                        sorted(os.path.realpath(p) for p in origs) != sorted(os.path.join(ds, f) for f in backed):
+                    fails.append(("C18.create.complete", dict(inp, stage="a new BackupManager lists the backup"),
+                                  {"recorded": sorted(rec) if rec else rec, "stored": stored, "originals": origs},
+                                  {"recorded": sorted(backed), "stored": "existing files inside " + broot}))
+            except Exception as e:
+                fails.append(("C18.create.complete", dict(inp, stage="a new BackupManager lists the backup"),
+                              {"exception": type(e).__name__, "message": str(e)[:300]}, {"listed": sorted(backed)}))
+            # -- restore (API / CLI) after the data was rewritten and one file deleted
+            for via_cli in (False, True):
+                rinp = dict(inp, route="run_remodel_restore" if via_cli else "BackupManager.restore_backup")
+                spoiled = spoil_data(ds, tree, backed)
+                expect = dict(spoiled)
+                expect.update({f: orig[f] for f in backed})
+                try:
+                    do_restore(root_b, [], via_cli)
+                except Exception as e:
+                    fails.append(("C18.restore.completes", rinp, {"exception": type(e).__name__, "message": str(e)[:300]}, "no exception"))
+                    continue
+                finally:
+                    pass
+                now = read_state(ds)
+                if now != expect:
+                    diff = sorted(f for f in set(now) | set(expect) if now.get(f) != expect.get(f))
+                    fails.append(("C18.restore.byte_identical", rinp, {f: _show1(now.get(f)) for f in diff},
+                                  {f: _show1(expect.get(f)) for f in diff}))
+                if outside_files(base) != ["model.json"]:
+                    fails.append(("C18.restore.byte_identical", dict(rinp, stage="nothing written outside the data set"),
+                                  outside_files(base), ["model.json"]))
+            # -- remodel through this spelling: starts from the backed-up originals, twice == once
+            if can_remodel and (selection != "taskA"):
+                rinp = dict(inp, route="run_remodel")
+                spoil_data(ds, tree, backed)
+                states = []
+                for n in (1, 2):
+                    try:
+                        do_remodel(root_b, model)
+                        states.append(read_state(ds))
+                    except Exception as e:
+                        fails.append(("C18.remodel.completes", dict(rinp, run=n), {"exception": type(e).__name__, "message": str(e)[:300]},
+                                      "no exception"))
+                        break
+                if states:
+                    bad = sorted(f for f in tree if is_events(f) and
+                                 (states[0].get(f) is None or parse_tsv(states[0][f]) != oracle_remodel(orig[f])))
+                    bad += sorted(f for f in backed if not is_events(f) and states[0].get(f) != orig[f])
+                    if bad:
+                        fails.append(("C18.remodel.starts_from_backup", rinp, {f: _show1(states[0].get(f)) for f in bad},
+                                      {f: (oracle_remodel(orig[f]) if is_events(f) else _show1(orig[f])) for f in bad}))
+                    if len(states) == 2 and states[1] != states[0]:
+                        diff = sorted(f for f in set(states[0]) | set(states[1]) if states[0].get(f) != states[1].get(f))
+                        fails.append(("C18.remodel.twice_equals_once", rinp, {f: _show1(states[1].get(f)) for f in diff},
+                                      {f: _show1(states[0].get(f)) for f in diff}))
+            if read_backup(ds, NAME) != backup0:
+                fails.append(("C18.backup.unchanged_by_later_actions", inp, "backup directory content changed", "unchanged"))
+            out.append((json.dumps(inp), used_as != created_as, fails))
+            # leave the data as it was for the next spelling
+            for f in tree:
+                os.makedirs(os.path.dirname(os.path.join(ds, f)), exist_ok=True)
+                with open(os.path.join(ds, f), "wb") as fp:
+                    fp.write(orig[f])
+    finally:
+        os.chdir(cwd0)
+        shutil.rmtree(base, ignore_errors=True)
+    return out
+
+
+def spelling_jobs(quick):
+    trees_f = [list(FILES), ["sub1/sub1_task_B_events.tsv", HYPHEN, "sub2/notes_task_A.bin", "top_task_B_events.tsv"]]
+    jobs = []
+    k = 0
+    for tree in trees_f:
+        for selection in ("all", "events", "taskA"):
+            if not select(tree, selection):
+                continue
+            for create in SPELLINGS:
+                for entry in SPELL_ENTRIES:
+                    if entry == "cli" and selection == "taskA":
+                        continue
+                    k += 1
+                    if quick:
+                        # the same spelling, the real path and two others (rotating so that every ordered pair of spellings occurs)
+                        others = [s for s in SPELLINGS if s not in (create, "real")]
+                        uses = [create] + (["real"] if create != "real" else []) + [others[(k + j) % len(others)] for j in (0, 3)]
+                    else:
+                        uses = [create] + [s for s in SPELLINGS if s != create]
+                    jobs.append({"kind": "spelling", "tree": tree, "selection": selection, "create": create, "entry": entry,
+                                 "uses": uses})
+    return jobs
+
+
+GROUP = {"spelling": eval_spelling_group, "history": eval_history_group, "crash": eval_crash_group, "overwrite": eval_overwrite_group, "damaged": eval_damaged_group,
          "hidden": eval_hidden_group}
 
 
@@ -1209,11 +1395,12 @@ def run(w: Workload):
             if selection != "taskA":
                 jobs.append({"kind": "crash", "tree": tree, "selection": selection})
                 jobs.append({"kind": "damaged", "tree": tree, "selection": selection, "quick": w.quick})
+    jobs += spelling_jobs(w.quick)
     import multiprocessing as mp
     nproc = min(14, max(1, (os.cpu_count() or 2) - 2))
     with mp.get_context("fork").Pool(nproc) as pool:
         results = pool.map(eval_job, jobs, chunksize=1)
-    counts = {"history": 0, "crash": 0, "overwrite": 0, "damaged": 0, "hidden": 0}
+    counts = {"history": 0, "crash": 0, "overwrite": 0, "damaged": 0, "hidden": 0, "spelling": 0}
     hidden_verdicts = {}
     verdicts = {}
     damaged_verdicts = {}
@@ -1264,13 +1451,23 @@ def run(w: Workload):
                  "(listing_of_hidden), not judged.  + %d of these trees through the histories / interruption / damaged parts above"
                  % (len(HIDDEN_TREES), len(HIDDEN_UNIVERSE), len(HIDDEN_HOWS), len(hist_hidden)),
            exhaustive=True, listing_of_hidden=dict(sorted(hidden_verdicts.items())))
+    w.part("data root spelled in equivalent ways", cases=counts["spelling"],
+           bound="2 trees x selections {all, events, task A} x the spelling used to create the backup (%s) x entry point (BackupManager "
+                 "with full file paths leading through that spelling / with the real file paths / run_remodel_backup) x the spelling used "
+                 "afterwards (%s): the copies lie in <data set>/derivatives/remodel/backups/<name>/backup_root and nothing is written "
+                 "anywhere else; a NEW BackupManager given any spelling lists the backup with exactly the backed-up files, its stored "
+                 "paths exist inside backup_root and its original paths are the data files; restore_backup and run_remodel_restore "
+                 "through any spelling bring every backed-up file back byte for byte after all data was rewritten and one file "
+                 "deleted; run_remodel through any spelling starts from the backup, twice == once"
+                 % (", ".join(SPELLINGS), "the same, the real path and two rotating others" if w.quick else "every spelling"),
+           exhaustive=not w.quick)
     w.not_covered += [
         "interruption of restore_backup or of the remodeler itself; concurrent managers (a manager whose listing is stale "
         "because another manager created the backup after it was constructed does overwrite - outside the sequential contract)",
         "files of a BIDS 'task-<name>' spelling in a task-filtered restore are only required to be either untouched or restored",
-        "file metadata (mtime/permissions); symbolic links; backups_root outside the data root; trees > 6 files",
-        "non-ASCII or Unicode-normalisation variants of directory names; a data root that is itself reached through a differently "
-        "spelled path; case-only collisions on a case-insensitive file system (skipped when the probe says so)",
+        "file metadata (mtime/permissions); backups_root outside the data root; trees > 6 files",
+        "non-ASCII or Unicode-normalisation variants of directory names; symbolic links INSIDE the data set (the data root itself "
+        "reached through a link / relative / '..' / trailing separator is covered); case-only collisions on a case-insensitive file system (skipped when the probe says so)",
         "remodel on a tree whose events files are not all in the backup (Dispatcher raises HedFileError by design)",
     ]
     w.assumptions += [
@@ -1287,6 +1484,9 @@ def replay(w: Workload, case: dict):
                "sequences": [inp["sequence"]] if "sequence" in inp else [], "hidden": inp.get("hidden", False)}
     elif kind == "hidden":
         job = {"kind": kind, "tree": inp["tree"], "how": inp["how"]}
+    elif kind == "spelling":
+        job = {"kind": kind, "tree": inp["tree"], "selection": inp["selection"], "create": inp["create"], "entry": inp["entry"],
+               "uses": [inp["use"]] if "use" in inp else []}
     elif kind == "damaged":
         job = {"kind": kind, "tree": inp["tree"], "selection": inp["selection"], "only": inp["damage"]}
     else:
@@ -1294,7 +1494,7 @@ def replay(w: Workload, case: dict):
     for key, nontrivial, fails in eval_job(job):
         w.case(key=key, nontrivial=nontrivial)
         for clause, i2, obs, exp in fails:
-            if clause == case["clause"] and all(i2.get(k) == inp.get(k) for k in ("call_index", "mode", "how", "sequence", "damage", "route")):
+            if clause == case["clause"] and all(i2.get(k) == inp.get(k) for k in ("call_index", "mode", "how", "sequence", "damage", "route", "use")):
                 w.fail(clause, i2, obs, exp)
 
 
